@@ -104,6 +104,9 @@ def gen_case(rng: random.Random, tier: str, bias: str = ''):
                      ('pct', 2, 600, early), ('pct', 3, 600, early)])
     return dict(kind=rng.choice(['sync', 'sync', 'async']), cap=cap, nworkers=nworkers, callers=callers, nreq=r,
                 followups=1 if small else rng.choice([1, 2]),
+                # leave the server right after the callers have returned (abandoned requests may still be under
+                # way: nothing waits for them) and enter the SAME object again: every slot must be free again
+                exit_busy=rng.random() < (0.35 if bias == 'abandon' else 0.15),
                 chooser=list(ch), seed=rng.randrange(1 << 30))
 
 
@@ -253,6 +256,15 @@ def run_case(case):
                     box.setdefault('streams', []).append((spec, got, endk))
 
             await asyncio.gather(*[caller(spec) for spec in case['callers']])
+            if case.get('exit_busy'):
+                try:
+                    await srv.__aexit__(None, None, None)
+                    await srv.__aenter__()
+                except BaseException as e:  # noqa
+                    if isinstance(e, detsched.Abort):
+                        raise
+                    box['exit_error'] = 'exit/re-enter: ' + repr(e)
+                box['reenter_backlog'] = srv.backlog
             box['gather_alive'] = _alive(srv)
             r = case['nreq']
             for k in range(case['followups']):
@@ -359,6 +371,15 @@ def run_case(case):
                 t.start()
             for t in ts:
                 t.join()
+            if case.get('exit_busy'):
+                try:
+                    srv.__exit__(None, None, None)
+                    srv.__enter__()
+                except detsched.Abort:
+                    raise
+                except BaseException as e:  # noqa
+                    box['exit_error'] = 'exit/re-enter: ' + repr(e)
+                box['reenter_backlog'] = srv.backlog
             # follow-up requests with an unbounded deadline: the server must still answer (C07)
             box['gather_alive'] = _alive(srv)
             r = case['nreq']
@@ -457,6 +478,9 @@ def run_case(case):
         if cnt != 1:
             mon.append(dict(prop='C02', rule='served-twice', detail=f'request {r} served {cnt} times'))
     # C06: slots returned
+    if box.get('reenter_backlog'):
+        mon.append(dict(prop='C06', rule='slot-leak-after-reenter',
+                        detail=f'backlog {box["reenter_backlog"]} on the idle server right after leaving and re-entering it'))
     if box['idle_backlog'] != 0:
         mon.append(dict(prop='C06', rule='slot-leak', detail=f'backlog {box["idle_backlog"]} on an idle server'))
     # C07: server unharmed
@@ -473,8 +497,8 @@ def model_lines(cid, case, res):
     """Lines for `drv ledger`: call / emit (worker finished) / outcome events and every change of the
     public `Server.backlog`."""
     n = case['nreq'] + case['followups']
-    if n > MODEL_MAX_REQUESTS:
-        return []
+    if n > MODEL_MAX_REQUESTS or case.get('exit_busy'):
+        return []        # (exit_busy: two sessions; the ledger model describes one: monitors only)
     if case['kind'] == 'async' and any(q.get('cancel') is not None for sp in case['callers'] if sp['kind'] == 'call' for q in sp['reqs']):
         return []        # cancelled calling tasks: monitors only (the model's callers leave by outcome or deadline)
     bps, timed = [], []
